@@ -365,12 +365,6 @@ func main() {
 			for _, o := range l.Outcomes {
 				if o != g.Outcomes[0] {
 					kind := "extra-outcome"
-					if strings.Contains(p.Name, "if_wait_once") && o != "deadlock" && !strings.Contains(o, "stuck") && !strings.Contains(o, "diverged") && o != "horizon" {
-						// GooseLang's condition-variable wait may return spuriously (it is modelled as release + acquire); a
-						// single Wait under an if relies on Go's stronger guarantee, so further *values* on the GooseLang side
-						// are the model's over-approximation, not a mistranslation.  Deadlock / stuck / diverged still count.
-						continue
-					}
 					if o == "deadlock" {
 						kind = "deadlock"
 					} else if strings.Contains(o, "stuck") {
